@@ -229,7 +229,8 @@ def run(chk, repo, tier):
                 chk.ob('C07-c', 'U-dims', f.key, f'phasor exponent is dimensionless [{var}]', okd is True, msg, f.loc(e.node))
         chk.ob('C07-c', 'N-const', f.key, f'phasor exponent = +2*pi*i*opd/wavelength [{var}]', ok, det, f.loc(e.node))
         hm = isinstance(data, Poly) and has_factor(data, is_mask_atom)
-        chk.ob('C07-d', 'D-factor', f.key, f'mask is a factor of the phasor [{var}]', hm,
+        from .common import opaque_element as _opaque_element
+        chk.ob('C07-d', 'D-factor', f.key, f'mask is a factor of the phasor [{var}]', hm or (None if _opaque_element(data) else False),
                f'phasor = {fmt(data)}' + ('' if hm else ': samples outside the mask are not zeroed'), f.loc(e.node))
 
     # the phasor is built from the plane's public `amplitude` / `opd` (properties a subclass may override - the documented way of
@@ -297,7 +298,9 @@ def run(chk, repo, tier):
     facts[nf.attr(SELF, 'size').single_atom()] = C(1)
     f2, phs2, _ = phasors(repo, facts=facts)
     vals = {fmt(e.bound.get('data')) for _, e in phs2}
-    chk.ob('C07-f', 'R-constant', f2.key, 'default plane: phasor folds to the scalar 1', vals == {'1'},
+    from .common import opaque_element as _opq
+    chk.ob('C07-f', 'R-constant', f2.key, 'default plane: phasor folds to the scalar 1',
+           True if vals == {'1'} else (None if all(_opq(e.bound.get('data')) for _, e in phs2 if fmt(e.bound.get('data')) != '1') else False),
            f'with amplitude=1, opd=0, mask=1 the phasor is {sorted(vals)}', f2.loc())
 
     # ---------------------------------------------------------------- C07-g
